@@ -91,19 +91,27 @@ Proof. exact new_user_code_ok. Qed.
 Print Assumptions C16_user_code_check.
 
 (* Device authorization response: 22 URL-safe characters of device code, a user
-   code of the configured format, verification URI = issuer origin + form path,
-   complete URI = that + ?user_code=<code>, configured lifetime and interval;
-   and exactly that authorization (claimed client, requested scopes, not yet
-   approved or denied) is what the storage now holds. *)
-Theorem C16_response_fields : forall g cl st r cr scopes now life rnd st' dc uc vu vuc e i,
-  authz g cl st r cr scopes now life rnd = (st', RDevice dc uc vu vuc e i) ->
+   code of the configured format, verification URI = scheme://host of the issuer
+   derived from THIS request (static issuer, request Host, or Forwarded host -
+   [request_origin]) followed by the form path (the issuer's own path is
+   replaced), or the configured absolute form URL; complete URI = that +
+   ?user_code=<code>; configured lifetime and interval; and exactly that
+   authorization (claimed client, requested scopes, not yet approved or denied)
+   is what the storage now holds. Nothing of an earlier request enters. *)
+Theorem C16_response_fields : forall g cl st r cr scopes now life rnd host fwd st' dc uc vu vuc e i,
+  authz g cl st r cr scopes now life rnd host fwd = (st', RDevice dc uc vu vuc e i) ->
   device_code_ok dc = true /\
   (exists rs, List.length rs = g_amount g /\ Forall (fun x => In x (g_charset g)) rs /\
               uc = toks_str (layout (g_dash g) 0 rs)) /\
-  vu = (g_origin g ++ g_path g)%string /\ vuc = (vu ++ "?user_code=" ++ uc)%string /\
+  vu = match g_form g with
+       | FormPath p => (request_origin g host fwd ++ p)%string
+       | FormURL u => u
+       end /\
+  is_prefix (request_origin g host fwd) (request_issuer g host fwd) = true /\
+  vuc = (vu ++ "?user_code=" ++ uc)%string /\
   e = life /\ i = g_interval g /\
   st' = mkDev dc uc (claimed cr) scopes (now + ns_of_s life)%Z false false "" :: st.
-Proof. exact response_fields. Qed.
+Proof. exact response_fields_full. Qed.
 Print Assumptions C16_response_fields.
 
 (* every executed history is a reachable trace *)
